@@ -31,10 +31,10 @@ type Case struct {
 	Argv     []string `json:"argv,omitempty"`
 }
 
-var sigma = []string{"a", " ", "\t", "\n", `"`, `'`, "`", "$", `\`, "!", "*", "?",
+var sigma = []string{"a", " ", "\t", "\n", "\r", `"`, `'`, "`", "$", `\`, "!", "*", "?",
 	"[", "~", "#", "&", ";", "|", "<", ">", "(", "{", "=", "%", "-", "é", "☺"}
 
-var active = []string{`"`, "`", "$", `\`, "\n", `'`, "(", ")", "a"}
+var active = []string{`"`, "`", "$", `\`, "\n", `'`, "(", ")", "a", "\r"}
 
 func enumerate(alpha []string, minLen, maxLen int) []string {
 	var out []string
@@ -328,8 +328,8 @@ func main() {
 	for b := 1; b < 256; b++ {
 		ext = append(ext, string([]byte{byte(b)}), "a"+string([]byte{byte(b)})+"b")
 	}
-	r.Rule = "all strings of length<=3 over a 27-symbol shell-adversarial alphabet, all strings of length 4.." +
-		fmt.Sprint(actLen) + " over 9 shell-active symbols, every single byte 1..255 alone and between letters; " +
+	r.Rule = "all strings of length<=3 over a 28-symbol shell-adversarial alphabet (incl. CR and LF), all strings of length 4.." +
+		fmt.Sprint(actLen) + " over 10 shell-active symbols, every single byte 1..255 alone and between letters; " +
 		"each quoted by the real shellSafeQuote and evaluated by /bin/sh (dash) and bash; " +
 		"whole job scripts rendered by the real RemoteJobManager.jobScript for each shipped template with the value as " +
 		"program path / argument / environment value / stdout path / work dir, executed by the shell with an argv/env dumping program; the script-level values include every __MRO_*__ placeholder token of every template (alone, inside an option, doubled), which must stay literal. " +
